@@ -386,6 +386,12 @@ def cases(tier, seed):
             for g in (("u5", "ragged", "u5-dec") if tier == "quick" else LATTICE_GRIDS):
                 out.append({"kind": "mixdt", "method": m, "family": f, "grid": g, "dtype": "float64",
                             "tsdtype": "float32", "plane": 0})
+    # (e) re-entrancy: the right-hand side of a solve calls solve_ivp itself (same method, same state size, same
+    # dtype): nothing of the inner call may leak into the outer one
+    for m in METHODS:
+        for d in dtypes:
+            for inner in ("same", "rk4" if m != "rk4" else "rk45"):
+                out.append({"kind": "nested", "method": m, "inner": (m if inner == "same" else inner), "dtype": d})
     from mc.props import _hist_common as H
     H.spread(out, H.hist_cases(len(HIST_LABELS), 2 if tier == "quick" else 3))
     return out
@@ -1058,9 +1064,69 @@ def run_mixdt(cfg):
     return {"viol": viol, "obs": {"d": rnd(d, 2)}, "status": "violation" if viol else "ok", "n": 2}
 
 
+def run_nested(cfg):
+    """outer: y' = -z(t) y with z(t) obtained by an inner solve_ivp of z' = -z, z(0) = (1, 1) from 0 to t (same
+    state shape as y).  Closed form: z = exp(-t), y = y0 exp(-(1 - exp(-t))).  Reference run: the same outer solve
+    with the closed-form z(t) in place of the inner solve."""
+    m, mi, dt = cfg["method"], cfg["inner"], dt_of(cfg["dtype"])
+    f32 = dt == torch.float32
+    opts_o = {"atol": 1e-6, "rtol": 1e-4} if m in ADAPTIVE else {}
+    opts_i = {"atol": 1e-8, "rtol": 1e-6} if mi in ADAPTIVE else {}
+    ts = torch.linspace(0.0, 1.5, 4, dtype=dt)
+    y0 = torch.tensor([1.0, -0.5], dtype=dt)
+    z0 = torch.ones(2, dtype=dt)
+    ncall = [0]
+
+    class TooMany(Exception):
+        pass
+
+    def inner_rhs(t, z):
+        return -z
+
+    def rhs_nested(t, y):
+        ncall[0] += 1
+        if ncall[0] > 4000:
+            raise TooMany("more than 4000 evaluations of the outer right-hand side")
+        tt = torch.stack([torch.zeros((), dtype=dt), t.to(dt).reshape(())]) if mi in ADAPTIVE else \
+            torch.linspace(0.0, 1.0, 9, dtype=dt) * t.to(dt)
+        if float(t) == 0.0:
+            z = z0
+        else:
+            from xitorch.integrate import solve_ivp
+            z = solve_ivp(inner_rhs, tt, z0, method=mi, **opts_i)[-1]
+        return -z * y
+
+    def rhs_closed(t, y):
+        return -torch.exp(-t.to(dt)) * y
+    o = _solve(rhs_nested, ts, y0, m, **opts_o)
+    if o.exc is not None:
+        return {"viol": [_exc_v(o)], "status": "exception", "obs": {"exc": o.exc_sig, "calls": ncall[0]}, "n": 1}
+    o2 = _solve(rhs_closed, ts, y0, m, **opts_o)
+    if o2.exc is not None:
+        raise AssertionError("harness: the reference run raised: %s" % o2.exc_sig)
+    Y, R = o.value.double(), o2.value.double()
+    viol = []
+    if Y.shape != R.shape or o.value.dtype != dt:
+        viol.append(V("result-shape", {"got": list(Y.shape), "dtype": str(o.value.dtype)}))
+        return {"viol": viol, "obs": {}, "status": "violation", "n": 2}
+    exact = y0.double() * torch.exp(-(1.0 - torch.exp(-ts.double())))[:, None]
+    d = float((Y - R).abs().max())
+    # the two runs see z(t) values that differ by the error of the inner solve (<= 1e-5 for the fourth-order inner
+    # grids of 8 steps, a few 1e-2 for inner euler, <= 1e-6 for the adaptive ones; float32: 1e-5) - and, for an adaptive outer method, may take
+    # different step sequences that both respect rtol = 1e-4
+    tol = (2e-3 if m in ADAPTIVE else 2e-4) + (1e-4 if f32 else 0.0) + (5e-2 if mi == "euler" else 0.0)
+    if not d <= tol:
+        viol.append(V("nested-call-changes-the-outer-solution",
+                      {"max_abs_difference": d, "tol": tol, "error_of_nested_run": float((Y - exact).abs().max()),
+                       "error_of_reference_run": float((R - exact).abs().max()), "outer_rhs_calls": ncall[0]}))
+    return {"viol": viol, "obs": {"d": rnd(d, 2), "calls": ncall[0]}, "status": "violation" if viol else "ok", "n": 2}
+
+
 def run_case(cfg):
     torch.manual_seed(0)
     k = cfg["kind"]
+    if k == "nested":
+        return run_nested(cfg)
     if k == "mixdt":
         return run_mixdt(cfg)
     if k == "history":
